@@ -80,6 +80,27 @@ what = {
 'C18-r2m2-curly-strips-verb-from-every-token':'CurlyRouter strips `:letters` from every request token',
 'C19-r2m1-close-early-return-skips-reset':'same change as C13-r2m1, found independently',
 'C19-r2m2-bad-q-handling-depends-on-trace':'malformed q-value dropped only when trace logging is on',
+'R3A-m1-foreign-content-encoding-recompressed':'`wantsCompressedResponse` only honours a pre-set `gzip`/`deflate`: a body already labelled `br`/`identity` is encoded again',
+'R3A-m2-zlib-cache-sized-by-reader-capacity':'`zlibWriters` channel sized with `readersCapacity`: constructor blocks when writers > readers',
+'R3A-m3-gzip-reader-released-into-zlib-writer-pool':'`ReleaseGzipReader` puts into `ZlibWriterPool`: a later deflate response panics on the type assertion',
+'R3B-m1-accept-trimmed-before-cut-at-semicolon':'`matchesAccept` trims before cutting at `;`: `application/xml ;q=0.9` is refused with 406',
+'R3B-m2-media-defaults-reuse-backing-array':"`WebService.Produces/Consumes` reuse the previous list's backing array: routes built earlier change their media types",
+'R3B-m3-default-container-recovers':'`init()` applies the obsolete package variable: the DefaultContainer recovers from panics',
+'R3C-m1-condition-flag-not-reset-per-route':'`ok` flag of the If-condition loop hoisted out of the route loop: one failing route disables the rest',
+'R3C-m2-jsr311-reads-routes-field-without-lock':'`RouterJSR311.selectRoutes` ranges over `dispatcher.routes` instead of `Routes()` (data race)',
+'R3C-m3-multiline-flag-on-path-expressions':'path expressions compiled with `(?ms)`: `^`/`$` match at a newline inside the path',
+'R3D-m1-plain-root-parameter-scores-zero':'plain `{var}` root tokens score 0: `/{tenant}` ties with `/`, registration order decides',
+'R3D-m2-trace-line-dereferences-nil-service':'new trace line prints `best.rootPath` when no service matched (nil) – only with tracing on',
+'R3D-m3-trimleft-eats-value-prefix':'affix prefix removed with `strings.TrimLeft` (a character set): `order-red-17` binds `17`',
+'R3E-m1-servehttp-no-longer-closes-compressor':"`ServeHTTP`'s deferred `Close` of its own compressing writer removed: `Handle` targets and mux errors end truncated",
+'R3E-m2-plain-handler-gets-raw-writer':'`HandleWithFilter` hands the plain handler `resp.ResponseWriter`: filters observe status 200 / length 0',
+'R3E-m3-empty-fixed-prefix-not-mapped-on-root':'`"" == pattern` dropped in `addHandler`: root `{tenant}/items` panics in ServeMux',
+'R3F-m1-gzip-reader-released-before-body-is-read':'decompression set-up moved into a helper together with its `defer Release`: reader released before the body is read',
+'R3F-m2-compact-xml-content-type-after-writeheader':'compact XML: `Content-Type` set after `WriteHeader` (never sent)',
+'R3F-m3-q-without-equals-indexes-out-of-range':'`SplitN(param,"=",2)` without the length guard: `Accept: application/json;q` panics in `sortedMimes`',
+'R3G-m1-tracelogger-nil-leaves-tracing-on':'`TraceLogger(nil)` no longer switches tracing off: every traced path dereferences a nil logger',
+'R3G-m2-adapter-shares-request-state-between-requests':'middleware wrapped once per filter: req/resp/chain handed over through shared variables',
+'R3G-m3-empty-allowed-headers-grants-all':'empty `AllowedHeaders` treated as "no restriction" in the preflight',
 }
 rows = []
 for d in sorted(glob.glob(os.path.join(root, 'seeded', '*', ''))):
